@@ -7,6 +7,7 @@ import (
 	"encoding/binary"
 	"fmt"
 	"sort"
+	"time"
 
 	"github.com/irismod/service/types"
 )
@@ -68,6 +69,10 @@ type BindInfo struct {
 	Provider []byte
 	Owner    []byte
 	GenesisBelowMin bool
+	// DisabledAt: block time of the step in which the binding became unavailable (the harness's own record of the
+	// disabling time; zero if it was never observed to be disabled)
+	DisabledAt   time.Time
+	HasDisabledAt bool
 }
 
 type Tracker struct {
@@ -83,11 +88,14 @@ type Tracker struct {
 	AllCtxIDs map[string]bool
 	// ledgers are unreliable after an export-and-continue until re-based
 	Generation int
+	// withdrawal address in force per owner (hex), from successful set-withdraw-address messages / genesis
+	WithdrawAddr map[string][]byte
 }
 
 func NewTracker(cfg *Config, genesis *Snap) *Tracker {
 	t := &Tracker{cfg: cfg, Reqs: map[string]*ReqInfo{}, Ctxs: map[string]*CtxInfo{}, ProviderOwner: map[string][]byte{},
 		Binds: map[string]*BindInfo{}, Vol: map[string]uint64{}, DefBytes: map[string][]byte{}, AllReqIDs: map[string]bool{}, AllCtxIDs: map[string]bool{}}
+	t.WithdrawAddr = map[string][]byte{}
 	t.rebase(genesis)
 	return t
 }
@@ -107,11 +115,15 @@ func (t *Tracker) rebase(s *Snap) {
 		}
 		if old, ok := t.Binds[bk]; ok {
 			bi.GenesisBelowMin = old.GenesisBelowMin && bi.GenesisBelowMin
+			bi.DisabledAt, bi.HasDisabledAt = old.DisabledAt, old.HasDisabledAt && !b.Available
 		}
 		t.Binds[bk] = bi
 		if _, ok := t.ProviderOwner[hx(b.Provider)]; !ok {
 			t.ProviderOwner[hx(b.Provider)] = b.Owner
 		}
+	}
+	for o, w := range s.Withdraw {
+		t.WithdrawAddr[o] = w
 	}
 	for name := range s.Defs {
 		if _, ok := t.DefBytes[name]; !ok {
@@ -172,6 +184,10 @@ func (t *Tracker) Clone() *Tracker {
 	for k := range t.AllCtxIDs {
 		n.AllCtxIDs[k] = true
 	}
+	n.WithdrawAddr = make(map[string][]byte, len(t.WithdrawAddr))
+	for k, v := range t.WithdrawAddr {
+		n.WithdrawAddr[k] = v
+	}
 	return n
 }
 
@@ -213,6 +229,25 @@ func (t *Tracker) Apply(x *Exec, r *StepRec) {
 			if _, ok := t.ProviderOwner[hx(b.Provider)]; !ok {
 				t.ProviderOwner[hx(b.Provider)] = b.Owner
 			}
+		}
+	}
+
+	if r.Kind == "msg" && r.Msg.T == "setwd" {
+		t.WithdrawAddr[hx(r.Sender)] = resolveAddr(r.Msg.To)
+	}
+	// availability changes: remember when a binding was disabled
+	for _, bk := range post.BindingKeys() {
+		nb := post.Bindings[bk]
+		bi := t.Binds[bk]
+		if bi == nil {
+			continue
+		}
+		ob, existed := pre.Bindings[bk]
+		if existed && ob.Available && !nb.Available {
+			bi.DisabledAt, bi.HasDisabledAt = post.Time, true
+		}
+		if nb.Available {
+			bi.HasDisabledAt = false
 		}
 	}
 
